@@ -3,6 +3,7 @@
 From Coq Require Import List Arith Lia ZArith Permutation.
 Import ListNotations.
 From LS Require Import Gen_Leaf CV Gen_LeafProofs CvSpec.
+From LS Require CvSpec2.
 
 (* for EVERY stream of draws in range the rejection sampler — when it returns — has placed every
    object index exactly once (a permutation of 0..nobj-1) *)
@@ -29,6 +30,27 @@ Theorem C05_loo_equals_refit (X Y Mdl P : Type) (fit : list (X * Y) -> Mdl) (pre
   = predict (fit (remove_nth X Y i d)) (fst (nth i d dflt)).
 Proof. exact (loo_equals_refit X Y Mdl P fit predict dflt i d). Qed.
 
+(* k-fold (any grouping gs : object -> group) for an ARBITRARY learner: the prediction of object i is
+   unchanged when the response of any object j of i's own group changes (i itself included), and it
+   is the prediction of the model fitted on exactly the objects of the other groups *)
+Theorem C05_kfold_out_of_sample (X Y Mdl P : Type) (fit : list (X * Y) -> Mdl) (predict : Mdl -> X -> P) dflt i j y d gs :
+  j < length gs -> nth j gs 0 = nth i gs 0 ->
+  CvSpec2.kfold_at X Y Mdl P fit predict dflt (CvSpec2.set_y X Y j y d) gs i = CvSpec2.kfold_at X Y Mdl P fit predict dflt d gs i.
+Proof. exact (@CvSpec2.kfold_out_of_sample X Y Mdl P fit predict dflt i j y d gs). Qed.
+Theorem C05_kfold_training_set (X Y : Type) k (d : list (X * Y)) gs : length gs = length d ->
+  CvSpec2.train_without X Y k d gs = map fst (filter (fun pg => negb (Nat.eqb (snd pg) k)) (combine d gs)).
+Proof. exact (@CvSpec2.train_without_spec X Y k d gs). Qed.
+Theorem C05_kfold_equals_refit (X Y Mdl P : Type) (fit : list (X * Y) -> Mdl) (predict : Mdl -> X -> P) dflt i d gs :
+  i < length d ->
+  nth i (CvSpec2.kfold X Y Mdl P fit predict dflt d gs) (CvSpec2.kfold_at X Y Mdl P fit predict dflt d gs 0) =
+  predict (fit (CvSpec2.train_without X Y (nth i gs 0) d gs)) (fst (nth i d dflt)).
+Proof. exact (@CvSpec2.kfold_equals_refit X Y Mdl P fit predict dflt i d gs). Qed.
+(* bootstrap: any number of random groupings, per-object predictions combined by any function *)
+Theorem C05_bootstrap_out_of_sample (X Y Mdl P : Type) (fit : list (X * Y) -> Mdl) (predict : Mdl -> X -> P) dflt
+  (combine_p : list P -> P) i y d gss : (forall gs, In gs gss -> i < length gs) ->
+  CvSpec2.boot_at X Y Mdl P fit predict dflt combine_p (CvSpec2.set_y X Y i y d) gss i = CvSpec2.boot_at X Y Mdl P fit predict dflt combine_p d gss i.
+Proof. exact (@CvSpec2.bootstrap_out_of_sample X Y Mdl P fit predict dflt combine_p i y d gss). Qed.
+
 (* termination of the sampler on the seeds the library uses is decided by computation for a
    finite family: seeds 0..3, 1..8 objects, 3 groups — every run returns (within 800 draws) *)
 Definition sampler_returns (seed nobj : nat) : bool :=
@@ -45,3 +67,7 @@ Print Assumptions C05_split_partition.
 Print Assumptions C05_loo_out_of_sample.
 Print Assumptions C05_loo_equals_refit.
 Print Assumptions C05_sampler_terminates_on_small_seeds.
+Print Assumptions C05_kfold_out_of_sample.
+Print Assumptions C05_kfold_training_set.
+Print Assumptions C05_kfold_equals_refit.
+Print Assumptions C05_bootstrap_out_of_sample.
